@@ -67,11 +67,24 @@ AllOk(S) == \A i \in 1..Len(S) : S[i].ok
 CommList(bs) == [i \in 1..Len(bs) |-> CommDec(bs[i])]
 VssList(bs) == [i \in 1..Len(bs) |-> PtDecX(s, bs[i], FALSE)]
 
+\* list decoders: at least two entries, no trailing bytes, every entry well formed; commitment lists in
+\* strictly ascending NUMERICAL order of identifiers (hence no duplicate)
+LenC == Ns + 2 * Ne
+CommListDecOk(b) ==
+    /\ Len(b) % LenC = 0 /\ Len(b) \div LenC >= 2
+    /\ LET n == Len(b) \div LenC
+           ent(i) == CommDecX(Cut(b, (i - 1) * LenC, LenC), TRUE)
+       IN /\ \A i \in 1..n : ent(i).ok
+          /\ \A i \in 1..(n - 1) : Lt(ent(i).id, ent(i + 1).id)
+VssListDecOk(b) ==
+    /\ Len(b) % Ne = 0 /\ Len(b) \div Ne >= 2
+    /\ \A i \in 1..(Len(b) \div Ne) : PtDecX(s, Cut(b, (i - 1) * Ne, Ne), TRUE)[1]
 \* strict decoders: accepted exactly when well formed, and re-encoding gives the input back
 DecodeOk(kind, b) ==
     CASE kind = "share" -> ShareDecX(b, TRUE).ok [] kind = "nonce" -> NonceDec(b).ok [] kind = "comm" -> CommDecX(b, TRUE).ok
       [] kind = "sigshare" -> SigShareDec(b).ok [] kind = "sig" -> SigDecX(b, TRUE).ok [] kind = "spk" -> SpkDecX(b, TRUE).ok
       [] kind = "gpk" -> GpkDecX(b, TRUE).ok [] kind = "gsk" -> GskDec(b).ok
+      [] kind = "commlist" -> CommListDecOk(b) [] kind = "vsslist" -> VssListDecOk(b)
 DoCodec == Is("codec") /\ Step(/\ Has("some") /\ e.some = DecodeOk(e.kind, e["in"])
                                /\ (e.some => Has("out") /\ e.out = e["in"]))
 
